@@ -96,6 +96,9 @@ def unit(model, sizes):
         for p in probs:
             tot = tot + p
         recs.append(eq_rec(P, f"C11/{model}/rank-plus-draw@{shape}", tot, one, fn, shape, rp))
+    from .predutil import history_records
+    if n <= 3:
+        recs += history_records("C11", W, model, sizes, ("predict_rank", "predict_draw"))
     return recs
 
 
